@@ -43,7 +43,7 @@ type Case struct {
 }
 
 func genCase(t *rapid.T) Case {
-	c := Case{File: rapid.Bool().Draw(t, "file"), Thresh: rapid.SampledFrom([]int64{0, 0, 25, 25, 60}).Draw(t, "thresh")}
+	c := Case{File: rapid.Bool().Draw(t, "file"), Thresh: rapid.SampledFrom([]int64{0, 0, 1, 8, 8}).Draw(t, "thresh")}
 	nb := rapid.IntRange(2, 4).Draw(t, "nb")
 	for i := 0; i < nb; i++ {
 		var sb strings.Builder
